@@ -140,6 +140,25 @@ def gen_traces_h2(seed, n, maxlabels):
     return traces
 
 
+def gen_traces_seq(ctor, max0, ptmo, depth=8, max_edges=100000):
+    """bounded-exhaustive exploration of sequences of whole operations (try_get / get / timeout_get / try_remove /
+    try_add / add / re-add of a handed-back object / drop / take / close / status / abandoning a parked get or add),
+    breadth first and pruned by the abstract pool state; one trace per (state, operation) edge plus drain and probe"""
+    p = subprocess.run([BIN, 'seq', str(ctor), str(max0), str(ptmo), str(depth), str(max_edges)],
+                       stdout=subprocess.PIPE, stderr=subprocess.PIPE, text=True, timeout=3000)
+    traces = []
+    for line in p.stdout.splitlines():
+        try:
+            traces.append(json.loads(line))
+        except ValueError:
+            break
+    for t in traces:
+        t['profile'] = 'seq'
+    if p.returncode != 0:
+        raise RuntimeError('sequential exploration failed (rc %d, %d traces): %s' % (p.returncode, len(traces), p.stderr[-400:]))
+    return traces
+
+
 def gen_traces(seed, profile, n, maxlabels):
     p = subprocess.run([BIN, 'gen', str(seed), str(n), profile, str(maxlabels)],
                        stdout=subprocess.PIPE, stderr=subprocess.PIPE, text=True, timeout=3000)
@@ -597,6 +616,9 @@ def run_engine(seed, tier):
     ncorpus = len(traces)
     for bi, (profile, n, ml) in enumerate(batches(tier)):
         traces += gen_traces(seed * 1000 + bi, profile, n, ml)
+    seq_cfgs = ((0, 2, 0), (2, 2, 0), (1, 1, 1), (0, 1, 0), (1, 2, 2), (2, 3, 0)) if tier == 'thorough' else ((0, 2, 0), (1, 1, 1))
+    for (ct, mx, pt) in seq_cfgs:
+        traces += gen_traces_seq(ct, mx, pt)
     n2, ml2 = h2_batch(tier)
     traces += gen_traces_h2(seed * 1000 + 77, n2, ml2)
     # identical label sequences (frequent among the race merges) are evaluated once
